@@ -6,6 +6,7 @@ import (
 	"reflect"
 	"runtime"
 	"strings"
+	"unsafe"
 
 	"go.pennock.tech/tabular"
 	"go.pennock.tech/tabular/csv"
@@ -52,9 +53,31 @@ var c12Keys = []interface{}{
 	int(1), int64(1), uint8(1), c12Named1(1), c12Named2(1), "1", float64(1), true,
 	c12PtrA, c12PtrB, c12KS{1}, [2]int{1, 1},
 	align.PropertyType, properties.Skipable, rune('1'), "a", "b", "c",
+	// a key of every other comparable kind, alone and inside structs and arrays: anything Go can compare is a key
+	complex128(1), complex64(1), float32(1), uintptr(1), int8(1), int16(1), int32(2), uint16(1), uint32(1), uint64(1),
+	c12Chan, (<-chan int)(c12Chan), unsafe.Pointer(c12ArrV), c12WithChan{"job", c12Done}, [2]complex128{1, 1}, c12Boxed{1}, c12Boxed{"1"}, [1]interface{}{int8(1)},
 }
 
-func c12KeyName(k interface{}) string { return fmt.Sprintf("%T(%v)", k, k) }
+type c12WithChan struct {
+	name string
+	done chan struct{}
+}
+
+type c12Boxed struct{ v interface{} }
+
+var (
+	c12Chan = make(chan int)
+	c12Done = make(chan struct{})
+)
+
+// c12KeyName prints a key without any address in it.
+func c12KeyName(k interface{}) string {
+	switch k.(type) {
+	case chan int, <-chan int, unsafe.Pointer, c12WithChan:
+		return fmt.Sprintf("%T(one fixed value)", k)
+	}
+	return fmt.Sprintf("%T(%v)", k, k)
+}
 
 type c12Owner struct {
 	name     string
@@ -744,7 +767,7 @@ func init() {
 	register(&Prop{
 		ID:    "C12",
 		Level: "exploration",
-		Rule: "phase 0: random histories of 10-80 steps over set / set-nil / repeated set / copy-cell-by-value / copy-column-by-value / copy-row-by-value / set properties on a cell before adding it / capture column handle / grow table (rows wider than the column bookkeeping's capacity) / extend attached row / add separator / render pass / Cell.Update / a property-carrying cell used as the item of a new cell, with a 24-key universe (three pairs of pointer keys of different types holding the same address - struct and first field, array and element 0, two field-less types -, int(1), int64(1), uint8(1), two named ints, \"1\", float64(1), true, two distinct pointers to equal structs, a struct, an array, align.PropertyType, properties.Skipable, rune, \"a\",\"b\",\"c\"); after EVERY step all (owner, accessor, key) triples are read back and compared with the reference maps. " +
+		Rule: "phase 0: random histories of 10-80 steps over set / set-nil / repeated set / copy-cell-by-value / copy-column-by-value / copy-row-by-value / set properties on a cell before adding it / capture column handle / grow table (rows wider than the column bookkeeping's capacity) / extend attached row / add separator / render pass / Cell.Update / a property-carrying cell used as the item of a new cell, with a 42-key universe (a key of every comparable kind, also inside structs and arrays, incl. complex numbers, channels and unsafe.Pointer; (three pairs of pointer keys of different types holding the same address - struct and first field, array and element 0, two field-less types -, int(1), int64(1), uint8(1), two named ints, \"1\", float64(1), true, two distinct pointers to equal structs, a struct, an array, align.PropertyType, properties.Skipable, rune, \"a\",\"b\",\"c\"); after EVERY step all (owner, accessor, key) triples are read back and compared with the reference maps. " +
 			"phase 1: 33-257 live keys on one owner. phase 2 (exhaustive over 5 owners x 3 arrangements): a get, a run of L sets without a get, a get - for L around every power of two up to 2^17 and 2x, 3x 2^16. phase 3 (exhaustive over 5 owners x 1-3 keys): %#v dump after 2 rounds of sets must equal the dump after 52 rounds. phase 4 (solo, shard 0): 200k repeated sets must not raise the live heap by more than 4 MB. " +
 			"Distinct = distinct histories; non-trivial = more than 5 steps.",
 		Assumptions: []string{
